@@ -295,7 +295,12 @@ where
 
   fn split_at(self, index: usize) -> (Self, Self) {
     let (start, end) = self.steps.range();
-    let s1 = self.steps.value(index - 1);
+    // `index == 0` is a valid split (empty left part); avoid underflowing `index - 1`
+    let s1 = if index == 0 {
+      start
+    } else {
+      self.steps.value(index - 1)
+    };
     let s2 = self.steps.value(index);
     (
       ParIterator1D {
